@@ -147,7 +147,7 @@ def min_sum_milp(masks, costs, nunits, cover=False, time_limit=60):
     A = csr_matrix((np.ones(len(rows)), (rows, cols)), shape=(nunits, len(masks)))
     con = LinearConstraint(A, lb=np.ones(nunits), ub=(np.full(nunits, np.inf) if cover else np.ones(nunits)))
     res = milp(c=np.asarray(costs, dtype=np.float64), constraints=[con], integrality=np.ones(len(masks)),
-               bounds=Bounds(0, 1), options={"time_limit": time_limit})
+               bounds=Bounds(0, 1), options={"time_limit": time_limit, "mip_rel_gap": 0.0})   # default gap is 1e-4: not an exact oracle
     if not res.success:
         return None
     return float(res.fun)
